@@ -523,10 +523,10 @@ def corpus():
     # D07 (fixed): a hold with omitted StartTime next to one that declares it
     c.append(dict(claim="read", doc=_doc(ho=[dict(EndTime=500, Lane=3, KeySounds=ks0), dict(StartTime=10, EndTime=300, Lane=1, KeySounds=ks0)])))
     c.append(dict(claim="read", doc=_doc(ho=[dict(EndTime=500, Lane=3, KeySounds=ks0)])))
-    # D21 (open): KeySounds omitted
+    # D21 (fixed): KeySounds omitted
     c.append(dict(claim="read", doc=_doc(ho=[dict(StartTime=100, Lane=2)]), _expect="D21"))
     c.append(dict(claim="wr", doc=_doc(ho=[dict(StartTime=100, Lane=2), dict(StartTime=5, EndTime=9, Lane=1, KeySounds=ks0)]), _expect="D21"))
-    # D08 (open) / D09 (fixed): charts that come out of a converter
+    # D08 / D09 (fixed): charts that come out of a converter
     conv = dict(meta=dict(Title="t: #x", Tags=["a", "b"], InitialScrollVelocity=R(1.0)),
                 hits=[[R(100.5), 1, None], [R(200), 3, None]], holds=[[R(300), 2, R(150.25), None]],
                 bpms=[[R(0), R(150), R(4)]], svs=[[R(10), R(1.5)]])
@@ -848,8 +848,6 @@ def run_read(case, drv):
             if p:
                 ok = False
                 detail["spec_diff"] = p[:8]
-                if not domf["keysounds_declared"] and not extras and only_omitted_ks_nan(pdoc, ch, spec["ok"]):
-                    kf = "D21"
     if not (ok and agree):
         detail.update(text=text, impl=impl[:2], model=model, spec=spec)
     nontrivial = bool(pdoc.get("HitObjects") or pdoc.get("TimingPoints")) and len(tags) > 2
@@ -877,13 +875,8 @@ def judge_written(drv, wire_doc, chart, domc, problems, findings):
     """(S) for a written document: allowed keys/types, and it denotes `chart` with every time moved by < 1 ms"""
     al = drv.call("c06.doc_allowed", doc=wire_doc)["ok"]
     if not al["allowed"]:
-        n_nan = sum(h[2] is None for h in chart["hits"]) + sum(h[3] is None for h in chart["holds"])
-        n_off = sum(1 for sec, key in al["offending"] if sec == "HitObjects" and key == "KeySounds")
-        for sec, key in al["offending"]:
-            if sec == "HitObjects" and key == "KeySounds" and n_nan == n_off:
-                findings.add("D08")
-            else:
-                problems.append(f"not-allowed:{sec}.{key}")
+        for sec, key in al["offending"]:      # no open finding excuses an entry (D08, D21, D29 are repaired)
+            problems.append(f"not-allowed:{sec}.{key}")
     # denotation: KeySounds that are not lists cannot be denoted; judge the rest with them replaced by []
     patched = json.loads(json.dumps(wire_doc))
     nan_ks = False
@@ -1051,24 +1044,7 @@ def run_wr(case, drv):
         if "ok" in spec:
             # the written document is allowed and denotes what the original denotes (times moved by < 1 ms)
             domc = drv.call("c06.dom_chart", chart=spec["ok"])["ok"]
-            # D21's predicate: exactly the omitted KeySounds were read as NaN (and are then written as `.nan`)
-            d21 = nan_pattern(ch) == omitted_pattern(pdoc) and any(any(p) for p in nan_pattern(ch))
-            ref = json.loads(json.dumps(spec["ok"]))
-            for a, b in zip(ref["hits"], ch["hits"]):
-                if b[2] is None:
-                    a[2] = None
-            for a, b in zip(ref["holds"], ch["holds"]):
-                if b[3] is None:
-                    a[3] = None
-            f2 = set()
-            judge_written(drv, wire2, ref, domc, problems, f2)
-            if "D08" in f2:
-                f2.discard("D08")
-                if d21:
-                    findings.add("D21")
-                else:
-                    problems.append("KeySounds-written-as-nan")
-            findings |= f2
+            judge_written(drv, wire2, spec["ok"], domc, problems, findings)
     ok = not problems and not findings
     kf = _kf_of(problems, findings)
     if not (ok and agree):
